@@ -30,6 +30,8 @@ func init() {
 		ruleKind(c, "C11.V12")
 		ruleNlinkFloor(c, "C11.V13")
 		ruleNilUse(c, "C11.V15")
+		ruleV16(c, "C11.V16")
+		ruleDirKind(c, "C11.V17")
 	}
 }
 
@@ -988,5 +990,275 @@ func ruleNlinkFloor(c *Ctx, id string) {
 	}
 	if n == 0 {
 		R.Pass(id, "Nlink|no decrement outside DecLink", "?", "nothing to guard", "no such decrement")
+	}
+}
+
+// ---------------------------------------------------------------- V16: every sized allocation
+
+// allocBounded: a value that sizes an allocation is acceptable when it is a
+// constant, the length of an existing slice or string, a file size, a 16-bit
+// quantity, dominated by an upper-bound comparison, or - for a parameter -
+// when every caller passes such a value.  Unlike boundedValue a 32-bit origin
+// is NOT a bound: 4 GiB per request is an allocation a client must not choose.
+func allocBounded(c *Ctx, fn *ssa.Function, v ssa.Value, at *ssa.BasicBlock, depth int) (bool, string) {
+	sv := stripConv(v)
+	if _, ok := sv.(*ssa.Const); ok {
+		return true, "constant"
+	}
+	if b, ok := sv.Type().Underlying().(*types.Basic); ok {
+		switch b.Kind() {
+		case types.Uint16, types.Uint8, types.Int16, types.Int8, types.Bool:
+			return true, "at most 16 bits"
+		}
+	}
+	if cl, ok := sv.(*ssa.Call); ok {
+		if bi, ok := cl.Call.Value.(*ssa.Builtin); ok && (bi.Name() == "len" || bi.Name() == "cap" || bi.Name() == "min") {
+			return true, bi.Name() + " of an existing object"
+		}
+	}
+	if n, fl, _, _ := loadedField(sv); n == c.V.Inode && fl == "Size" {
+		return true, "a file size (bounded by MaxFileSize, C19.M3)"
+	}
+	if n, fl, _, _ := loadedField(sv); n != nil && fl == "Size" && n.Obj().Pkg() != nil && strings.HasSuffix(n.Obj().Pkg().Path(), "/simple") {
+		return true, "a SimpleNFS file size (at most one block)"
+	}
+	g := guardedBy(fn, at, func(cd Cond) (bool, bool) {
+		if cd.X == nil || cd.Y == nil {
+			return false, false
+		}
+		op, a, b := cd.Op, cd.X, cd.Y
+		if stripConv(b) == sv && stripConv(a) != sv {
+			op, a, b = flipOp(op), b, a
+		}
+		if stripConv(a) != sv {
+			return false, false
+		}
+		switch op {
+		case token.LSS, token.LEQ:
+			return true, true
+		case token.GEQ, token.GTR:
+			return true, false
+		}
+		return false, false
+	})
+	if g {
+		return true, "dominated by an upper-bound comparison"
+	}
+	switch x := sv.(type) {
+	case *ssa.BinOp:
+		// a difference, quotient or remainder of bounded values is bounded; so is a sum or product of them
+		okX, _ := allocBounded(c, fn, x.X, at, depth)
+		okY, _ := allocBounded(c, fn, x.Y, at, depth)
+		switch x.Op {
+		case token.SUB, token.QUO, token.SHR, token.AND:
+			if okX {
+				return true, "derived from a bounded value"
+			}
+		case token.REM:
+			if okY || okX {
+				return true, "remainder"
+			}
+		case token.ADD, token.MUL, token.SHL, token.OR:
+			if okX && okY {
+				return true, "sum/product of bounded values"
+			}
+		}
+		return false, ""
+	case *ssa.Phi:
+		if depth < 4 {
+			for _, e := range x.Edges {
+				if e == ssa.Value(x) {
+					continue
+				}
+				if ok, _ := allocBounded(c, fn, e, at, depth+1); !ok {
+					return false, ""
+				}
+			}
+			return true, "every phi input bounded"
+		}
+	case *ssa.UnOp:
+		if x.Op == token.MUL {
+			if al, ok := x.X.(*ssa.Alloc); ok {
+				if st := singleStore(al); st != nil {
+					return allocBounded(c, fn, st, at, depth)
+				}
+			}
+		}
+	case *ssa.Parameter:
+		if depth < 4 {
+			idx := -1
+			for i, p := range fn.Params {
+				if p == x {
+					idx = i
+				}
+			}
+			n := 0
+			for _, s := range c.P.CallersOf(fn) {
+				if !IsRepoFunc(s.Caller) || strings.HasSuffix(c.P.Pos(s.Instr.Pos()), "_test.go") {
+					continue
+				}
+				args := callCommon(s.Instr).Args
+				if idx < 0 || idx >= len(args) {
+					return false, ""
+				}
+				n++
+				if ok, _ := allocBounded(c, s.Caller, args[idx], s.Instr.Block(), depth+1); !ok {
+					return false, "caller " + FuncName(s.Caller) + " passes a value that is not bounded"
+				}
+			}
+			if n > 0 {
+				return true, fmt.Sprintf("every one of the %d callers passes a bounded value", n)
+			}
+		}
+	}
+	return false, ""
+}
+
+func ruleV16(c *Ctx, id string) {
+	V, P, R := c.V, c.P, c.R
+	R.Rule(id, "no allocation sized by the client: every make with a non-constant length or capacity in a function reachable from a handler is sized by a constant, a len(), a file size, or a value with a dominating upper bound (through callers); a 32-bit request field alone is not a bound", 3)
+	var roots []*ssa.Function
+	roots = append(roots, V.NfsProcs...)
+	roots = append(roots, V.SimpleProcs...)
+	reach := P.Reach(roots, func(f *ssa.Function) bool { return !IsRepoFunc(f) })
+	var fns []*ssa.Function
+	for f := range reach {
+		if IsRepoFunc(f) && relPkg(f) != "nfstypes" {
+			fns = append(fns, f)
+		}
+	}
+	sort.Slice(fns, func(i, j int) bool { return FuncName(fns[i]) < FuncName(fns[j]) })
+	perFn := map[string]int{}
+	n := 0
+	for _, fn := range fns {
+		for _, b := range fn.Blocks {
+			for _, in := range b.Instrs {
+				mk, ok := in.(*ssa.MakeSlice)
+				if !ok {
+					continue
+				}
+				for _, sz := range []struct {
+					what string
+					v    ssa.Value
+				}{{"len", mk.Len}, {"cap", mk.Cap}} {
+					if _, isC := stripConv(sz.v).(*ssa.Const); isC {
+						continue
+					}
+					n++
+					R.Analysed[FuncName(fn)] = true
+					k := FuncName(ownerOf(fn)) + "|make " + sz.what
+					perFn[k]++
+					key := k
+					if perFn[k] > 1 {
+						key = fmt.Sprintf("%s#%d", k, perFn[k])
+					}
+					okB, why := allocBounded(c, fn, sz.v, mk.Block(), 0)
+					R.Check(okB, id, key, P.Pos(mk.Pos()), "the size of the allocation is bounded independently of the request", why, "the "+sz.what+" of this make can be chosen by the client (up to 4 GiB per request through a 32-bit count): a few parallel requests exhaust the server's memory")
+				}
+			}
+		}
+	}
+	if n == 0 {
+		R.Pass(id, "make|no sized allocation", "?", "no make with a non-constant size on a handler path", "none")
+	}
+}
+
+// ---------------------------------------------------------------- V17: directory code on directories only
+
+// ruleDirKind: the dir package reads and writes an inode's content as an array
+// of directory entries.  A client can name any object as "the directory", so
+// every such access must be on an inode known to be a directory.
+func ruleDirKind(c *Ctx, id string) {
+	V, P, R := c.V, c.P, c.R
+	R.Rule(id, "directory code runs on directories only: every Inode.Read / Inode.Write issued by package dir is on an inode dominated by Kind == NF3DIR, in the function or at every call site of the function (through its parameter)", 3)
+	dirK := constOfPkg(P, "nfstypes", "NF3DIR")
+	if V.InodeWrite == nil {
+		return
+	}
+	rd := c.fn(id, "inode.(*Inode).Read")
+	if rd == nil {
+		return
+	}
+	var guarded func(fn *ssa.Function, at *ssa.BasicBlock, subj ssa.Value, depth int) (bool, string)
+	guarded = func(fn *ssa.Function, at *ssa.BasicBlock, subj ssa.Value, depth int) (bool, string) {
+		sv := stripConv(subj)
+		mk := func(v ssa.Value) func(Cond) (bool, bool) {
+			want := stripConv(v)
+			return func(cd Cond) (bool, bool) {
+				n, fl, base, _ := loadedField(cd.X)
+				k, isk := constInt(cd.Y)
+				if n != V.Inode || fl != "Kind" || !isk || k != dirK || base != want {
+					return false, false
+				}
+				switch cd.Op {
+				case token.EQL:
+					return true, true
+				case token.NEQ:
+					return true, false
+				}
+				return false, false
+			}
+		}
+		// directly, or through a predicate helper whose result is tested (if st := check(ip, ...); st != OK { return })
+		g := guardedByS(fn, at, subj, mk, 0)
+		if g {
+			return true, "Kind == NF3DIR dominates in " + FuncName(fn)
+		}
+		// a freshly allocated directory: AllocInode(NF3DIR) / the kind parameter compared
+		pm, isP := sv.(*ssa.Parameter)
+		if fv, isF := sv.(*ssa.FreeVar); isF && fn.Parent() != nil && depth < 5 {
+			// closure: the captured variable as bound at the MakeClosure
+			for _, b := range fn.Parent().Blocks {
+				for _, in := range b.Instrs {
+					if mc, ok := in.(*ssa.MakeClosure); ok && mc.Fn == ssa.Value(fn) {
+						for i, q := range fn.FreeVars {
+							if q == fv && i < len(mc.Bindings) {
+								return guarded(fn.Parent(), mc.Block(), mc.Bindings[i], depth+1)
+							}
+						}
+					}
+				}
+			}
+		}
+		if !isP || depth >= 5 {
+			return false, "no directory check on " + sv.Name() + " in " + FuncName(fn)
+		}
+		idx := -1
+		for i, q := range fn.Params {
+			if q == pm {
+				idx = i
+			}
+		}
+		n := 0
+		for _, s := range P.CallersOf(fn) {
+			if !IsRepoFunc(s.Caller) || strings.HasSuffix(P.Pos(s.Instr.Pos()), "_test.go") {
+				continue
+			}
+			cc := callCommon(s.Instr)
+			if idx < 0 || idx >= len(cc.Args) {
+				return false, "call shape"
+			}
+			n++
+			if ok, why := guarded(s.Caller, s.Instr.Block(), cc.Args[idx], depth+1); !ok {
+				return false, "caller " + FuncName(s.Caller) + ": " + why
+			}
+		}
+		if n == 0 {
+			return false, "no caller"
+		}
+		return true, fmt.Sprintf("every one of the %d call sites passes a checked directory", n)
+	}
+	nSites := 0
+	for _, fn := range P.RepoFuncs("dir") {
+		for _, call := range P.CallsIn(fn, funcIs(rd, V.InodeWrite)) {
+			nSites++
+			R.Analysed[FuncName(fn)] = true
+			okG, why := guarded(fn, call.Block(), recvOf(call), 0)
+			what := staticCallee(call).Name()
+			R.Check(okG, id, FuncName(ownerOf(fn))+"|"+what+" of directory content", P.Pos(call.Pos()), "the inode whose content is read/written as directory entries is known to be a directory", why, why+": a client can pass the handle of a regular file as the directory; its data is then decoded as entries (length field from file data: slice-bounds panic) or entries are appended to the file")
+		}
+	}
+	if nSites == 0 {
+		R.Fail(id, "dir|content accesses", "?", "package dir reads and writes directory content", "no Inode.Read/Write call found in package dir")
 	}
 }
